@@ -31,6 +31,7 @@ __CPROVER_requires(g_fsize <= C14_FILE_MAX)
 __CPROVER_assigns(g_fsize, g_fault)
 __CPROVER_ensures(g_fsize >= __CPROVER_old(g_fsize) && g_fsize <= C14_FILE_MAX)
 __CPROVER_ensures(__CPROVER_return_value == 0 || g_fault)
+__CPROVER_ensures(__CPROVER_return_value != 0 || g_fault == __CPROVER_old(g_fault))
 ;
 
 static int write_id_table(const sqfs_xattr_writer_t *xwr,
@@ -40,12 +41,14 @@ __CPROVER_requires(g_loc_count >= 1 && __CPROVER_is_fresh(locations, g_loc_count
 __CPROVER_assigns(g_fsize, g_fault, __CPROVER_object_whole(locations))
 __CPROVER_ensures(g_fsize >= __CPROVER_old(g_fsize) && g_fsize <= C14_FILE_MAX)
 __CPROVER_ensures(__CPROVER_return_value == 0 || g_fault)
+__CPROVER_ensures(__CPROVER_return_value != 0 || g_fault == __CPROVER_old(g_fault))
 ;
 
 static int alloc_location_table(const sqfs_xattr_writer_t *xwr,
 				sqfs_u64 **tbl_out, size_t *szout)
 __CPROVER_assigns(*tbl_out, *szout, g_fault, g_loc_count)
 __CPROVER_ensures(__CPROVER_return_value == 0 || g_fault)
+__CPROVER_ensures(__CPROVER_return_value != 0 || g_fault == __CPROVER_old(g_fault))
 __CPROVER_ensures(__CPROVER_return_value == 0 ||
 		  *tbl_out == __CPROVER_old(*tbl_out))
 __CPROVER_ensures(__CPROVER_return_value != 0 ||
@@ -111,6 +114,10 @@ void harness(void)
 
 	VERIF_ASSERT(g_ntrunc == 0 && g_fsize >= size0, "C14.xattr_flush.no_shrink");
 	VERIF_ASSERT(g_mw_live == 0, "C14.xattr_flush.writer_released");
+#ifdef C13_CHECKS
+	VERIF_ASSERT(!g_fault || ret != 0, "C13.xattr_flush.propagates");
+	VERIF_ASSERT(ret == 0 || g_fault, "C13.xattr_flush.fails_only_on_fault");
+#endif
 	if (xwr.kv_pairs.used == 0 || xwr.num_blocks == 0) {
 		VERIF_ASSERT(ret == 0 && g_nwrite == 0 && g_fsize == size0 &&
 			     super.xattr_id_table_start == 0xFFFFFFFFFFFFFFFFUL &&
